@@ -538,6 +538,7 @@ const (
 )
 
 type vRun struct {
+	onToken func() // called before a token request is answered (the attempt may be held here)
 	w      *vWorld
 	rev    map[string]string // concrete string -> url token
 	events []string
@@ -886,6 +887,9 @@ func (r *vRun) RoundTrip(req *http.Request) (*http.Response, error) {
 			}
 		}
 		r.events = append(r.events, "T:"+t+":"+credOf(id))
+		if r.onToken != nil {
+			r.onToken()
+		}
 		l, ok := r.w.tok[t]
 		if !ok || n >= len(l) {
 			// the Lean world answers `fail` for anything unscripted
@@ -1033,6 +1037,10 @@ type vAttempt struct {
 	state    string
 	isParked bool
 	ended    bool // its `end` record was printed
+	holdTok    bool          // hold the attempt at its first token request
+	tokParked  chan struct{} // RoundTrip -> harness
+	tokRelease chan struct{} // harness -> RoundTrip
+	held       bool
 	before   oauth2.TokenSource
 	err      error
 	panicked bool
@@ -1163,7 +1171,16 @@ func (hs *vHandler) begin(w *vWorld) (a *vAttempt, obs string) {
 	r := &vRun{w: w, upper: w.sty%5 == 1} // mixed-case schemes only in fields that are not compared as strings
 	r.addAll()
 	hs.cur = r
-	a = &vAttempt{k: len(hs.att), w: w, run: r, parked: make(chan string), release: make(chan struct{}), done: make(chan struct{})}
+	a = &vAttempt{k: len(hs.att), w: w, run: r, parked: make(chan string), release: make(chan struct{}), done: make(chan struct{}),
+		tokParked: make(chan struct{}), tokRelease: make(chan struct{})}
+	first := true
+	r.onToken = func() {
+		if a.holdTok && first {
+			first = false
+			a.tokParked <- struct{}{}
+			<-a.tokRelease
+		}
+	}
 	hs.att = append(hs.att, a)
 	ctx := context.WithValue(context.Background(), vAttKey{}, a)
 	req, err := http.NewRequestWithContext(ctx, http.MethodPost, w.u.render(false), nil)
@@ -1230,7 +1247,33 @@ func (hs *vHandler) observe(a *vAttempt) string {
 	return "out=" + classifyErr(a.err) + " inst=" + inst + " cur=" + cur + " log=" + lg
 }
 
-// end lets attempt k return from the fetcher and waits until its Authorize call has returned.
+// answer lets the fetcher of attempt k return and holds the attempt at its first token request ("held");
+// "done" if its Authorize call returned without one (what it did is reported by its `end` record).
+func (hs *vHandler) answer(k int) string {
+	if k < 0 || k >= len(hs.att) || hs.att[k].ended {
+		return "no-such-attempt"
+	}
+	a := hs.att[k]
+	if !a.isParked || a.held || a.inst != "" {
+		return "done"
+	}
+	a.holdTok = true
+	a.before, _ = hs.h.TokenSource(context.Background())
+	hs.finishing = a
+	close(a.release)
+	a.isParked = false
+	select {
+	case <-a.tokParked:
+		a.held = true
+		return "held"
+	case <-a.done:
+		hs.observe(a)
+		return "done"
+	}
+}
+
+// end lets attempt k run to its end (from the fetcher, or from the token request it is held at) and waits
+// until its Authorize call has returned.
 func (hs *vHandler) end(k int) (a *vAttempt, obs string) {
 	if k < 0 || k >= len(hs.att) || hs.att[k].ended {
 		return nil, "no-such-attempt"
@@ -1240,7 +1283,13 @@ func (hs *vHandler) end(k int) (a *vAttempt, obs string) {
 	if a.obs != "" {
 		return a, a.obs
 	}
-	if a.isParked {
+	switch {
+	case a.held:
+		a.before, _ = hs.h.TokenSource(context.Background())
+		hs.finishing = a
+		close(a.tokRelease)
+		<-a.done
+	case a.isParked:
 		a.before, _ = hs.h.TokenSource(context.Background())
 		hs.finishing = a
 		close(a.release)
@@ -2196,16 +2245,27 @@ func runOps(out *verifOut, cs string, ops []string, tag string) {
 			obs = hs.round(w)
 			book(w, obs)
 			out.line(cs, op, obs, append(flowTags(w, obs), tag)...)
+		case strings.HasPrefix(op, "answer "):
+			k, err := strconv.Atoi(strings.TrimSpace(op[7:]))
+			if err != nil || hs == nil {
+				out.line(cs, op, "bad-op", tag)
+				continue
+			}
+			obs := hs.answer(k)
+			out.line(cs, op, obs, tag, "answer", "answer-"+obs)
 		case strings.HasPrefix(op, "end "):
 			k, err := strconv.Atoi(strings.TrimSpace(op[4:]))
 			if err != nil || hs == nil {
 				out.line(cs, op, "bad-op", tag)
 				continue
 			}
-			inFlight := 0
+			inFlight, heldOthers := 0, 0
 			for _, x := range hs.att {
-				if !x.ended && x.isParked {
+				if !x.ended && (x.isParked || x.held) {
 					inFlight++
+					if x.held && x.k != k {
+						heldOthers++
+					}
 				}
 			}
 			a, obs := hs.end(k)
@@ -2215,7 +2275,13 @@ func runOps(out *verifOut, cs string, ops []string, tag string) {
 			}
 			book(a.w, obs)
 			tags := append(flowTags(a.w, obs), tag, "end")
-			if a.isParked && inFlight > 1 {
+			if heldOthers > 0 && strings.Contains(obs, "inst=1") {
+				tags = append(tags, "installed-while-a-token-request-of-another-attempt-is-under-way")
+			}
+			if a.held && strings.Contains(obs, "inst=1") {
+				tags = append(tags, "installed-after-being-held-at-the-token-endpoint")
+			}
+			if (a.isParked || a.held) && inFlight > 1 {
 				tags = append(tags, fmt.Sprintf("in-flight=%d", inFlight))
 				if strings.Contains(obs, "inst=1") {
 					tags = append(tags, "installed-while-others-in-flight")
@@ -2290,7 +2356,7 @@ func TestVerifOAuthFlow(t *testing.T) {
 			out.line("pool", "reset", "bad-pool-parses:"+hxs(s), "reset")
 		}
 	}
-	if runCorpusAndReplay(out, "auth ", "again ", "begin ", "end ", "new ") {
+	if runCorpusAndReplay(out, "auth ", "again ", "begin ", "end ", "answer ", "new ") {
 		return
 	}
 	// handler construction: which configurations become a handler, with which redirect URL / application type
@@ -2318,6 +2384,13 @@ func TestVerifOAuthFlow(t *testing.T) {
 		var open []int
 		bad := false
 		flush := func() {
+			rng.Shuffle(len(open), func(a, b int) { open[a], open[b] = open[b], open[a] })
+			// the fetcher of some of them returns first: their token request is under way (held) while the others finish
+			for _, k := range open {
+				if rng.Intn(100) < 35 {
+					ops = append(ops, fmt.Sprintf("answer %d", k))
+				}
+			}
 			rng.Shuffle(len(open), func(a, b int) { open[a], open[b] = open[b], open[a] })
 			for _, k := range open {
 				ops = append(ops, fmt.Sprintf("end %d", k))
